@@ -143,6 +143,15 @@ func (o *vectorOperator) initOutputs(ctx context.Context) error {
 	keepName := o.opType.IsComparisonOperator() && !o.returnBool
 	highCardHashes, highCardInputMap := o.hashSeries(highCardSide, keepLabels, keepName, buf)
 	lowCardHashes, lowCardInputMap := o.hashSeries(lowCardSide, keepLabels, keepName, buf)
+	// Number the match groups of the low cardinality side before the join prunes them.
+	lowCardGroups := make([]uint64, len(lowCardSide))
+	numGroups := 0
+	for _, seriesIDs := range lowCardInputMap {
+		for _, seriesID := range seriesIDs {
+			lowCardGroups[seriesID] = uint64(numGroups)
+		}
+		numGroups++
+	}
 	output, highCardOutputIndex, lowCardOutputIndex := o.join(highCardHashes, highCardInputMap, lowCardHashes, lowCardInputMap, includeLabels)
 
 	series := make([]labels.Labels, len(output))
@@ -164,6 +173,8 @@ func (o *vectorOperator) initOutputs(ctx context.Context) error {
 		o.outputCache,
 		newHighCardIndex(highCardOutputIndex),
 		lowCardinalityIndex(lowCardOutputIndex),
+		lowCardGroups,
+		numGroups,
 	)
 
 	return nil
